@@ -1762,9 +1762,13 @@ class Parallel(Logger):
             raise
         finally:
             # Store the unconsumed tasks and terminate the workers if necessary
-            _remaining_outputs = [] if self._exception else self._jobs
-            self._jobs = collections.deque()
-            self._jobs_set = set()
+            with self._lock:
+                # A completion callback may be registering a new batch right
+                # now: it does so under the lock, either before the lines
+                # below or, seeing that the call is over, not at all.
+                _remaining_outputs = [] if self._exception else self._jobs
+                self._jobs = collections.deque()
+                self._jobs_set = set()
             if not detach_generator_exit:
                 self._running = False
                 self._terminate_and_reset()
